@@ -55,6 +55,75 @@ def gen_traj_pair(r, n, fmt, base, off):
     return {"ref12": ref12, "est12": est12, "ref_stamps": ref_stamps, "est_stamps": est_stamps, "ref_ns": ref_ns}
 
 
+def gen_grid_case(r, which):
+    """exact-grid CLI case: dyadic stamps (multiples of 1/8, estimate shifted by 0, +-1/64), thresholds hit exactly
+    (max_diff = 1/64, t_start/t_end on stamps, motion-filter distance = a 3-4-5 step), quarter-turn rotations,
+    dyadic positions: every float operation of the selection steps is exact"""
+    fmt = r.choice(["tum", "tum", "kitti", "euroc"])
+    n = r.randint(6, 14)
+    pos = [0.0, 0.0, 0.0]
+    ref12 = []
+    R = r.choice(mc.AXIS_ROTS)
+    for k in range(n):
+        if r.random() < 0.8:
+            step = r.choice([(3, 4, 0), (0, 3, 4), (4, 0, 3), (-3, 0, 4), (0, 0, 0), (6, 8, 0)])
+            pos = [pos[i] + step[i] / 8 for i in range(3)]
+        if r.random() < 0.4:
+            R = r.choice(mc.AXIS_ROTS)
+        ref12.append(mc.mat_pose(R, pos))
+    T = mc.rigid_T(r, exact=True)
+    sc = r.choice([1.0, 1.0, 0.5, 2.0])
+    est12 = []
+    for p in ref12:
+        m = mc.pose12_to_np(p)
+        m[:3, 3] = m[:3, 3] * sc
+        est12.append(mc.np_to_pose12(T @ m))
+    off = None
+    if fmt != "kitti" and r.random() < 0.5:
+        off = r.choice([0.5, -0.5, 0.03125, -0.03125])
+    base = r.choice([-0.5, 0.0, 16.0])
+    if fmt == "euroc":
+        ns0 = 1400000000 * 10 ** 9
+        ref_ns = [ns0 + k * 125000000 for k in range(n)]
+        ref_stamps = [t / 1e9 for t in ref_ns]
+    else:
+        ref_ns = None
+        ref_stamps = [base + k / 8 for k in range(n)]
+    keep = list(range(n)) if fmt == "kitti" else ([k for k in range(n) if r.random() < 0.85] or [0])
+    est_stamps = [ref_stamps[k] + r.choice([0, 0, 1, -1, 2]) / 64 - (off or 0.0) for k in keep]
+    data = {"ref12": ref12, "est12": [est12[k] for k in keep], "ref_stamps": ref_stamps, "est_stamps": est_stamps,
+            "ref_ns": ref_ns}
+    o = {"pose_relation": r.choice(mc.RELS[:6] if which == "ape" else mc.RELS)}
+    if fmt != "kitti":
+        o["t_max_diff"] = r.choice([0.015625, 0.015625, 0.03125, 0.0])
+        if r.random() < 0.4:
+            o["t_start"] = r.choice(ref_stamps)
+        if r.random() < 0.4:
+            o["t_end"] = r.choice(ref_stamps)
+        if r.random() < 0.3:
+            o["motion_filter"] = [r.choice([0.625, 1.25, 0.0]), 400.0]
+    if r.random() < 0.3:
+        o["downsample"] = r.choice([2, 3, n - 1, n, max(2, n // 2)])
+    k = r.random()
+    if k < 0.3:
+        o["align"] = True
+    elif k < 0.45:
+        o["align_origin"] = True
+    if r.random() < 0.3:
+        o["correct_scale"] = True
+    if which == "rpe":
+        u = r.choice(["f", "f", "m"])
+        o["delta_unit"] = u
+        o["delta"] = {"f": r.choice([1.0, 2.0]), "m": r.choice([0.625, 1.25])}[u]
+        if r.random() < 0.4:
+            o["all_pairs"] = True
+        if r.random() < 0.5:
+            o["pairs_from_reference"] = True
+        if r.random() < 0.3:
+            o["delta_tol"] = r.choice([0.5, 0.25])
+    return {"kind": "cli", "which": which, "stream": "grid", "fmt": fmt, "data": data, "off": off, "opts": o}
+
+
 def gen_opts(r, which, fmt, data):
     n = len(data["ref12"])
     o = {"pose_relation": r.choice(mc.RELS[:6] if which == "ape" else mc.RELS)}
@@ -105,13 +174,15 @@ def gen_opts(r, which, fmt, data):
 
 def gen_cli_cases(ctx, which):
     r = ctx.rng
-    n_cases = 160 if not ctx.thorough else 3000
+    n_cases = 120 if not ctx.thorough else 2500
     # corpus: F9 (t_start 0 with stamps straddling zero), offset signs, crop on the reference only
     data = gen_traj_pair(r, 10, "tum", -0.5, 0.0)
     yield {"kind": "cli", "which": which, "fmt": "tum", "data": data, "off": None,
            "opts": dict({"pose_relation": "trans_part", "t_start": 0.0}, **({"delta": 1.0, "delta_unit": "f"} if which == "rpe" else {}))}
     yield {"kind": "cli", "which": which, "fmt": "tum", "data": data, "off": None,
            "opts": dict({"pose_relation": "trans_part", "t_end": 0.0}, **({"delta": 1.0, "delta_unit": "f"} if which == "rpe" else {}))}
+    for _ in range(60 if not ctx.thorough else 1200):
+        yield gen_grid_case(r, which)
     for _ in range(n_cases):
         fmt = r.choice(["tum", "tum", "kitti", "euroc"])
         n = r.randint(6, 24)
@@ -288,13 +359,18 @@ def apply_steps(steps, ref, est, stop_before_metric=False, capture=None):
 
     def num(x):
         return float(core.parse_rat(x)) if isinstance(x, str) else x
+    GEO = ("align", "align_origin", "project", "ape", "rpe")
     with mc.quiet():
         for st in steps:
             op = st[0]
+            if capture is not None and op in GEO and "sel_ref" not in capture:
+                capture["sel_ref"], capture["sel_est"] = mc.seen_poses(ref), mc.seen_poses(est)
             if op == "downsample":
                 ref.downsample(int(st[1]))
                 est.downsample(int(st[1]))
             elif op == "motion_filter":
+                if capture is not None:
+                    capture["mf_ref"], capture["mf_est"] = motion_par(ref), motion_par(est)
                 ref.motion_filter(num(st[1]), num(st[2]), True)
                 est.motion_filter(num(st[1]), num(st[2]), True)
             elif op == "crop_ref":
@@ -305,12 +381,16 @@ def apply_steps(steps, ref, est, stop_before_metric=False, capture=None):
                 ref, est = sync.associate_trajectories(ref, est, num(st[1]), num(st[2]))
             elif op == "align":
                 kind, n = st[1], int(st[2])
-                est.align(ref, correct_scale=kind in ("sim3", "scale_only"), correct_only_scale=kind == "scale_only", n=n)
+                rv = est.align(ref, correct_scale=kind in ("sim3", "scale_only"), correct_only_scale=kind == "scale_only", n=n)
+                if capture is not None:
+                    capture["ume"] = (np.array(rv[0], dtype=float), np.array(rv[1], dtype=float), float(rv[2]))
             elif op == "align_origin":
                 est.align_origin(ref)
             elif op == "project":
                 ref.project(Plane(st[1]))
                 est.project(Plane(st[1]))
+                if capture is not None:
+                    capture["dirs_ref"], capture["dirs_est"] = dirs_of(ref, st[1]), dirs_of(est, st[1])
             elif op == "ape":
                 if stop_before_metric:
                     return ref, est, None
@@ -327,6 +407,7 @@ def apply_steps(steps, ref, est, stop_before_metric=False, capture=None):
                     capture["driving"] = ref if st[6] in ("1", True) else est
                     capture["pc"] = {"delta": num(st[2]), "unit": st[3], "tol": num(st[4]), "all_pairs": st[5] in ("1", True)}
                     capture["driving"] = copy.deepcopy(capture["driving"])
+                    capture["pairs_par"] = pairs_par(capture["driving"], st[3], st[5] in ("1", True))
                 metric = metrics.RPE(mc.pose_relation(st[1]), num(st[2]), unit, num(st[4]), st[5] in ("1", True),
                                      st[6] in ("1", True))
                 metric.process_data((ref, est))
@@ -339,6 +420,159 @@ def apply_steps(steps, ref, est, stop_before_metric=False, capture=None):
             else:
                 raise core.ToolError("unknown plan step " + op)
     return ref, est, metric
+
+
+# ------------------------------------------------------------------------------------------------ Params of Model/Pipeline
+def motion_par(traj):
+    """what filter_by_motion looks at: accumulated distances and pairwise rotation angles (radians, evo's own
+    float primitives) of the trajectory entering the filter"""
+    from evo.core import geometry, lie_algebra as lie
+    poses = traj.poses_se3
+    acc = geometry.accumulated_distances(np.array([p[:3, 3] for p in poses]))
+    tri = []
+    for i in range(len(poses) - 1):
+        for j in range(i + 1, len(poses)):
+            tri.append(lie.so3_log_angle(lie.relative_so3(poses[i][:3, :3], poses[j][:3, :3])))
+    return {"acc": [float(x) for x in acc], "tri": [float(x) for x in tri]}
+
+
+def dirs_of(traj, plane):
+    """(cos phi, sin phi) of the rotation about the plane normal that project() stored"""
+    out = []
+    for p in traj.poses_se3:
+        if plane == "xy":
+            out.append((float(p[0, 0]), float(p[1, 0])))
+        elif plane == "xz":
+            out.append((float(p[0, 0]), float(p[0, 2])))
+        else:
+            out.append((float(p[1, 1]), float(p[2, 1])))
+    return out
+
+
+def pairs_par(traj, unit, all_pairs):
+    """what id_pairs_from_delta looks at in the driving trajectory: step lengths, consecutive and pairwise
+    relative angles (radians), computed with evo's own float primitives (as in harness/props/C10.py)"""
+    from props import C10
+    poses = traj.poses_se3
+    steps = [float(np.linalg.norm(b[:3, 3] - a[:3, 3])) for a, b in zip(poses, poses[1:])]
+    cang = [float(x) for x in C10.evo_consec_angles(poses)]
+    tri = []
+    if unit in ("r", "d") and all_pairs:
+        with mc.quiet():
+            for i in range(len(poses) - 1):
+                tri += [float(x) for x in C10.evo_pair_angles(poses, i)]
+    return {"steps": steps, "cang": cang, "tri": tri}
+
+
+def traj_tokens(stamps, rows12):
+    return core.ratlist(stamps) + " " + mc.poselist(rows12)
+
+
+def run_line(which, impl, cap):
+    """`run` request of the driver: options as parsed by evo's parser, Params from the interpreted run, the two
+    input trajectories as loaded by evo's readers (exact rationals)"""
+    opts = impl["plan_line"].split(" ", 2)[2]
+    e = {"acc": [], "tri": []}
+    mr, me = cap.get("mf_ref", e), cap.get("mf_est", e)
+    R, t, sc = cap.get("ume", (np.eye(3), np.zeros(3), 1.0))
+    ume = " ".join(rat(float(x)) for x in list(R.reshape(-1)) + list(t.reshape(-1)) + [sc])
+    dr = [x for cs in cap.get("dirs_ref", []) for x in cs]
+    de = [x for cs in cap.get("dirs_est", []) for x in cs]
+    pp = cap.get("pairs_par", {"steps": [], "cang": [], "tri": []})
+    par = " ".join([rat(float(np.pi)), core.ratlist(mr["acc"]), core.ratlist(mr["tri"]), core.ratlist(me["acc"]),
+                    core.ratlist(me["tri"]), ume, core.ratlist(dr), core.ratlist(de), core.ratlist(pp["steps"]),
+                    core.ratlist(pp["cang"]), core.ratlist(pp["tri"])])
+    return (f"{'C01' if which == 'ape' else 'C02'} run {opts} {par} "
+            f"{traj_tokens(*cap['in_ref'])} {traj_tokens(*cap['in_est'])}")
+
+
+def compare_model_run(ctx, case, impl, run, which):
+    """Model/Pipeline.lean executed on the input trajectories against what evo_ape / evo_rpe stored:
+    refusal class, kept poses (index lists -> input poses, stamps) exactly, values to tolerance"""
+    from props import C02 as P2
+    out = run.get("model_run")
+    if out is None:
+        return
+    cap = run["capture"]
+    fields = [f.strip() for f in out.split("|")]
+    margin = core.parse_rat(fields[-1])
+    grid = case.get("stream") == "grid"
+    mag = max([abs(x) for x in cap["in_ref"][0] + cap["in_est"][0]] + [1.0])
+    slack = Fraction(32, 2 ** 52) * frac(mag) if case["fmt"] != "kitti" else Fraction(1, 10 ** 12)
+    if not grid and margin < slack:
+        ctx.skipped += 1
+        ctx.count("branch", "model-run-borderline-skipped")
+        return
+    head = fields[0]
+    if head.startswith("E:"):
+        cls = head[2:]
+        if cls == "BAD-PARAMS":
+            ctx.mismatch(case, "Pipeline rejects the Params built from evo's run", impl["exc"], head)
+        elif impl["exc"] != cls:
+            ctx.mismatch(case, f"evo_{which} outcome differs from Pipeline.{which}Run", impl["exc"] or "stored a result", cls)
+        else:
+            ctx.count("branch", "model-run-refusal:" + cls)
+        return
+    if impl["exc"] is not None:
+        ctx.mismatch(case, f"evo_{which} raised but Pipeline.{which}Run returns a result", impl["exc"], "OK")
+        return
+    unit = head.split()[1]
+    rel = case["opts"]["pose_relation"]
+    fac = 1.0 if unit == "-" else unit_factor(rel, unit)
+    in_ref, in_est = cap["in_ref"][1], cap["in_est"][1]
+    sel_ref, sel_est = cap.get("sel_ref"), cap.get("sel_est")
+    vals = [float(v) for v in impl["error_array"].reshape(-1)]
+    if which == "ape":
+        ref_ids = [int(x) for x in fields[1].split()]
+        est_ids = [int(x) for x in fields[2].split()]
+        stamps = [core.parse_rat(x) for x in fields[3].split()]
+        toks = fields[4].split()
+        if [in_ref[i] for i in ref_ids] != sel_ref or [in_est[i] for i in est_ids] != sel_est:
+            ctx.mismatch(case, "poses kept by evo_ape are not the input poses named by Pipeline.apeRun's index lists",
+                         len(sel_ref), [ref_ids[:12], est_ids[:12]])
+            return
+        where = [(k, k) for k in range(len(toks))]
+    else:
+        delta_ids = [int(x) for x in fields[1].split()]
+        rp = [tuple(map(int, x.split(":"))) for x in fields[2].split()]
+        ep = [tuple(map(int, x.split(":"))) for x in fields[3].split()]
+        stamps = [core.parse_rat(x) for x in fields[4].split()]
+        toks = fields[5].split()
+        if delta_ids != [int(j) for j in run["metric"].delta_ids]:
+            ctx.mismatch(case, "delta_ids of evo_rpe differ from Pipeline.rpeRun", list(run["metric"].delta_ids)[:12], delta_ids[:12])
+            return
+        ok = len(rp) == len(delta_ids) == len(ep)
+        for k, j in enumerate(delta_ids):
+            ok = ok and in_ref[rp[k][1]] == sel_ref[j] and in_est[ep[k][1]] == sel_est[j]
+        if not ok:
+            ctx.mismatch(case, "pair ends of evo_rpe are not the input poses named by Pipeline.rpeRun", None, [rp[:8], ep[:8]])
+            return
+        where = None
+    if case["fmt"] != "kitti":
+        got = [frac(float(x)) for x in impl["timestamps"]]
+        if got != stamps:
+            ctx.mismatch(case, f"timestamps stored by evo_{which} differ from Pipeline.{which}Run", [float(x) for x in got[:6]],
+                         [float(x) for x in stamps[:6]])
+            return
+    if len(toks) != len(vals):
+        ctx.mismatch(case, f"evo_{which} stored {len(vals)} values, Pipeline.{which}Run {len(toks)}", len(vals), len(toks))
+        return
+    allp = in_ref + in_est + cap["ref"] + cap["est"]
+    m = max([abs(x) for p in allp for x in p] + [1.0])
+    for k, (v, tok) in enumerate(zip(vals, toks)):
+        f = tok.split(":")
+        mv = mc.value_of_core(tok) if not (f[0] == "R" and core.parse_rat(f[1]) == 0) else float("nan")
+        extra = 1.0
+        if f[0] == "R":
+            extra = 100.0 / max(mc.fsqrt(core.parse_rat(f[1])), 1e-300)
+        if rel == "angle_deg":
+            extra = mc.DEG
+        tol = 4096 * float(mc.U) * (m * extra + abs(mv)) * abs(fac)
+        if not abs(v - mv * fac) <= tol:
+            ctx.mismatch(case, f"value {k} stored by evo_{which} differs from Pipeline.{which}Run ({rel})", v, mv * fac)
+            return
+    ctx.count("branch", "cli-end-to-end-model-run" + (":grid" if grid else ""))
+    ctx.notes["cli_runs_checked_end_to_end"] = ctx.notes.get("cli_runs_checked_end_to_end", 0) + 1
 
 
 def documented_steps(case, which):
@@ -499,6 +733,17 @@ def evaluate(ctx, cases, which):
         outs = core.run_driver(lines, prop) if lines else []
         for k, o in zip(idx, outs):
             runs[k]["model_metric"] = o
+        # the whole pipeline inside the model (Model/Pipeline.lean) on the input trajectories
+        rl, ridx = [], []
+        for k, (case, impl, run) in enumerate(zip(cases, impls, runs)):
+            if plans[k] != "E_FILTER" and "in_ref" in run["capture"]:
+                rl.append(run_line(which, impl, run["capture"]))
+                ridx.append(k)
+        routs = core.run_driver(rl, prop) if rl else []
+        for k, o in zip(ridx, routs):
+            if o == "BAD-OP":
+                raise core.ToolError("driver rejected a run request")
+            runs[k]["model_run"] = o
         for case, impl, plan, run in zip(cases, impls, plans, runs):
             judge(ctx, case, impl, plan, run, which)
     finally:
@@ -517,6 +762,9 @@ def interpret(case, impl, plan):
     else:
         try:
             ref, est = load_fresh(case, impl["dir"])
+            for name, tr in (("in_ref", ref), ("in_est", est)):
+                st = [float(x) for x in tr.timestamps] if hasattr(tr, "timestamps") else [float(k) for k in range(tr.num_poses)]
+                run["capture"][name] = (st, mc.seen_poses(tr))
             run["ref"], run["est"], run["metric"] = apply_steps(parse_plan(plan), ref, est, capture=run["capture"])
         except EvoException as e:
             run["exc"] = type(e).__name__
@@ -589,6 +837,7 @@ def judge(ctx, case, impl, plan, run, which):
         for st in parse_plan(plan):
             ctx.count("branch", "step:" + st[0] + (":" + st[1] if st[0] == "align" else ""))
         compare_with_model_core(ctx, case, run, which)
+    compare_model_run(ctx, case, impl, run, which)
     # ---- oracle
     cli_oracle(ctx, case, impl, which)
     # ---- bookkeeping
